@@ -19,8 +19,12 @@ def callKnown (n : Nat) (ctx : Ctx) (d : FnDecl) (vs : List Value) (st : St) : R
 
 /-- the proof of each `eval_call_*`: the interpreter's rule for `.call`, the name is no library function, no
     enum constructor, and `fns` has it under its plain key whatever the arguments -/
-local macro "eval_call_tac" : tactic => `(tactic| (
-  simp only [eval]
+-- [poller, integration] the core rule `[threads]` for `f(|| g(..))` comes before the rule for `.call segs args`, so
+-- the latter applies when `args` is not that one closure: the side condition `hargs` (discharged by `simp` on the
+-- concrete argument lists of `ShmWriter::new`), and `rw [eval]` instead of `simp only [eval]`.
+local macro "eval_call_tac" h:ident : tactic => `(tactic| (
+  rw [eval]
+  case x_5 => exact $h
   congr 1
   funext av st'
   cases av <;> try rfl
@@ -28,36 +32,40 @@ local macro "eval_call_tac" : tactic => `(tactic| (
   rcases vs with _ | ⟨a, _ | ⟨b, t⟩⟩ <;> simp [rs_eval, rs_code, callKnown] <;> rfl))
 
 set_option maxRecDepth 8000 in
-theorem eval_call_wipe (n : Nat) (inp : Nat → Value) (fr : Frame) (args : List Expr) (st : St) :
+theorem eval_call_wipe (n : Nat) (inp : Nat → Value) (fr : Frame) (args : List Expr) (st : St)
+    (hargs : ∀ (fsegs : List String) (fargs : List Expr), args = [Expr.closure [] (Expr.call fsegs fargs)] → False) :
     eval (n + 1) (nctx inp) fr (.call ["ShmWriter", "wipe"] args) st
     = (evalList n (nctx inp) fr args st).bind fun av st =>
         match av with
         | .tuple vs => callKnown n (nctx inp) Code.fn_ShmWriter__wipe vs st
-        | _ => .stuck "internal: evalList result" := by eval_call_tac
+        | _ => .stuck "internal: evalList result" := by eval_call_tac hargs
 
 set_option maxRecDepth 8000 in
-theorem eval_call_usable (n : Nat) (inp : Nat → Value) (fr : Frame) (args : List Expr) (st : St) :
+theorem eval_call_usable (n : Nat) (inp : Nat → Value) (fr : Frame) (args : List Expr) (st : St)
+    (hargs : ∀ (fsegs : List String) (fargs : List Expr), args = [Expr.closure [] (Expr.call fsegs fargs)] → False) :
     eval (n + 1) (nctx inp) fr (.call ["ShmWriter", "is_usable_segment"] args) st
     = (evalList n (nctx inp) fr args st).bind fun av st =>
         match av with
         | .tuple vs => callKnown n (nctx inp) Code.fn_ShmWriter__is_usable_segment vs st
-        | _ => .stuck "internal: evalList result" := by eval_call_tac
+        | _ => .stuck "internal: evalList result" := by eval_call_tac hargs
 
 set_option maxRecDepth 8000 in
-theorem eval_call_mmap (n : Nat) (inp : Nat → Value) (fr : Frame) (args : List Expr) (st : St) :
+theorem eval_call_mmap (n : Nat) (inp : Nat → Value) (fr : Frame) (args : List Expr) (st : St)
+    (hargs : ∀ (fsegs : List String) (fargs : List Expr), args = [Expr.closure [] (Expr.call fsegs fargs)] → False) :
     eval (n + 1) (nctx inp) fr (.call ["ShmWriter", "mmap_segment_at"] args) st
     = (evalList n (nctx inp) fr args st).bind fun av st =>
         match av with
         | .tuple vs => callKnown n (nctx inp) Code.fn_ShmWriter__mmap_segment_at vs st
-        | _ => .stuck "internal: evalList result" := by eval_call_tac
+        | _ => .stuck "internal: evalList result" := by eval_call_tac hargs
 
 set_option maxRecDepth 8000 in
-theorem eval_call_segsize (n : Nat) (inp : Nat → Value) (fr : Frame) (args : List Expr) (st : St) :
+theorem eval_call_segsize (n : Nat) (inp : Nat → Value) (fr : Frame) (args : List Expr) (st : St)
+    (hargs : ∀ (fsegs : List String) (fargs : List Expr), args = [Expr.closure [] (Expr.call fsegs fargs)] → False) :
     eval (n + 1) (nctx inp) fr (.call ["ShmWriter", "segment_size"] args) st
     = (evalList n (nctx inp) fr args st).bind fun av st =>
         match av with
         | .tuple vs => callKnown n (nctx inp) Code.fn_ShmWriter__segment_size vs st
-        | _ => .stuck "internal: evalList result" := by eval_call_tac
+        | _ => .stuck "internal: evalList result" := by eval_call_tac hargs
 
 theorem known_segsize (inp : Nat → Value) (N : Nat) (st : St) :
     callKnown (N + 60) (nctx inp) Code.fn_ShmWriter__segment_size [] st = .val (.int .usize 72) st := by
